@@ -643,22 +643,19 @@ func Run(r *mc.Run) {
 		it := items[k]
 		c.index(it.v, corpora[it.ci], rdocs[it.ci], &pends[k])
 	})
-	for k := range pends {
-		for _, cl := range pends[k].order {
-			e := pends[k].m[cl]
-			for j := 0; j < e.count; j++ {
-				r.Violation(e.class, e.detail, e.replay)
-			}
-		}
+	engs := map[string]bool{}
+	for _, v := range vs {
+		engs[v.engName()] = true
 	}
+	report(r, pends, len(engs))
 }
 
 func bp(b bool) *bool { return &b }
 
 type pend struct {
-	class, detail string
-	replay        map[string]any
-	count         int
+	eng, class, detail string // class without the engine variant
+	replay             map[string]any
+	count              int
 }
 
 // pending keeps the violations of one enumeration item so that they are reported in
@@ -668,7 +665,7 @@ type pending struct {
 	m     map[string]*pend
 }
 
-func (p *pending) add(class, detail string, replay map[string]any) {
+func (p *pending) add(eng, class, detail string, replay map[string]any) {
 	if p.m == nil {
 		p.m = map[string]*pend{}
 	}
@@ -676,8 +673,58 @@ func (p *pending) add(class, detail string, replay map[string]any) {
 		e.count++
 		return
 	}
-	p.m[class] = &pend{class, detail, replay, 1}
+	p.m[class] = &pend{eng, class, detail, replay, 1}
 	p.order = append(p.order, class)
+}
+
+// report turns the collected counterexamples into violations, in enumeration order. A class
+// names the facet kind and the failing component; the engine variant is part of the class
+// only when the other variants do not show the same failure (a defect above the index layer
+// shows on all of them and is one root cause).
+func report(r *mc.Run, pends []pending, nVariants int) {
+	type agg struct {
+		engOrder []string
+		first    map[string]*pend
+		count    map[string]int
+	}
+	var order []string
+	m := map[string]*agg{}
+	for k := range pends {
+		for _, cl := range pends[k].order {
+			e := pends[k].m[cl]
+			a := m[cl]
+			if a == nil {
+				a = &agg{first: map[string]*pend{}, count: map[string]int{}}
+				m[cl] = a
+				order = append(order, cl)
+			}
+			if a.first[e.eng] == nil {
+				a.first[e.eng] = e
+				a.engOrder = append(a.engOrder, e.eng)
+			}
+			a.count[e.eng] += e.count
+		}
+	}
+	for _, cl := range order {
+		a := m[cl]
+		if len(a.engOrder) == nVariants {
+			f := a.first[a.engOrder[0]]
+			n := 0
+			for _, c := range a.count {
+				n += c
+			}
+			for j := 0; j < n; j++ {
+				r.Violation(cl, f.detail, f.replay)
+			}
+			continue
+		}
+		for _, eng := range a.engOrder {
+			f := a.first[eng]
+			for j := 0; j < a.count[eng]; j++ {
+				r.Violation(eng+":"+cl, f.detail, f.replay)
+			}
+		}
+	}
 }
 
 // index runs the whole request family on one index variant of one corpus.
@@ -745,15 +792,15 @@ func (c *ctx) index(v variant, sel []int, docs []*ref.RDoc, pd *pending) {
 				r.Eval(1)
 				where := fmt.Sprintf("%s corpus=%v q=%s %s", v, sel, q, pg)
 				if pv != nil {
-					pd.add(v.engName()+":panic", fmt.Sprintf("%s bundle=%d: panic %v @ %s", where, bi, pv, mc.TrimStack(st)), replay(""))
+					pd.add(v.engName(), "panic", fmt.Sprintf("%s bundle=%d: panic %v @ %s", where, bi, pv, mc.TrimStack(st)), replay(""))
 					continue
 				}
 				if err != nil {
-					pd.add(v.engName()+":error", fmt.Sprintf("%s bundle=%d: error %v", where, bi, err), replay(""))
+					pd.add(v.engName(), "error", fmt.Sprintf("%s bundle=%d: error %v", where, bi, err), replay(""))
 					continue
 				}
 				if int(res.Total) != len(matched) {
-					pd.add(v.engName()+":precondition:match-count", fmt.Sprintf("%s: Total=%d, reference evaluator matches %v", where, res.Total, ids(matched)), replay(""))
+					pd.add(v.engName(), "precondition:match-count", fmt.Sprintf("%s: Total=%d, reference evaluator matches %v", where, res.Total, ids(matched)), replay(""))
 					continue
 				}
 				cur := map[string]string{}
@@ -761,23 +808,23 @@ func (c *ctx) index(v variant, sel []int, docs []*ref.RDoc, pd *pending) {
 					f := b[name]
 					fr, ok := res.Facets[name]
 					if !ok || fr == nil {
-						pd.add(fmt.Sprintf("%s:%s:absent", v.engName(), kindName[f.kind]), fmt.Sprintf("%s: facet %s = %s absent from the result", where, name, f), replay(name))
+						pd.add(v.engName(), kindName[f.kind]+":absent", fmt.Sprintf("%s: facet %s = %s absent from the result", where, name, f), replay(name))
 						continue
 					}
 					cur[name] = renderFacet(f, fr)
 					check(f, fr, exp[name], func(what, detail string) {
-						cl := fmt.Sprintf("%s:%s:%s", v.engName(), kindName[f.kind], what)
-						if f.kind == kTerms {
-							cl = fmt.Sprintf("%s:%s(%s):%s", v.engName(), kindName[f.kind], f.filterKind(), what)
+						cl := kindName[f.kind] + ":" + what
+						if f.kind == kTerms && f.filterKind() != "nofilter" {
+							cl = "terms+filter:" + what
 						}
-						pd.add(cl, fmt.Sprintf("%s facet %s: %s", where, f, detail), replay(name))
+						pd.add(v.engName(), cl, fmt.Sprintf("%s facet %s: %s", where, f, detail), replay(name))
 					})
 					if e := exp[name]; f.kind == kTerms && e.missing[0] != e.missing[1] {
 						r.Count("terms_facets_where_the_two_readings_of_Missing_differ", 1)
 					}
 				}
 				if len(res.Facets) != len(b) {
-					pd.add(v.engName()+":unrequested-facet", fmt.Sprintf("%s: %d facets returned, %d requested", where, len(res.Facets), len(b)), replay(""))
+					pd.add(v.engName(), "unrequested-facet", fmt.Sprintf("%s: %d facets returned, %d requested", where, len(res.Facets), len(b)), replay(""))
 				}
 				if first == nil {
 					first, firstPage = cur, pg
@@ -792,7 +839,7 @@ func (c *ctx) index(v variant, sel []int, docs []*ref.RDoc, pd *pending) {
 					for _, name := range names {
 						if cur[name] != first[name] {
 							f := b[name]
-							pd.add(fmt.Sprintf("%s:%s:depends-on-page-settings", v.engName(), kindName[f.kind]),
+							pd.add(v.engName(), kindName[f.kind]+":depends-on-page-settings",
 								fmt.Sprintf("%s facet %s: %s, but with %s: %s", where, f, cur[name], firstPage, first[name]), replay(name))
 						}
 					}
